@@ -82,6 +82,9 @@ func (x *X) builtin(s *State, b *ssa.Builtin, c *ssa.CallCommon, args []Val) Val
 	case "len":
 		switch v := args[0].(type) {
 		case Sl:
+			if !isLiteralAtom(v.Len) { // a slice length is a non-negative int (language guarantee)
+				s.assume(fmt.Sprintf("(and (>= %s 0) (<= %s 9223372036854775807))", v.Len, v.Len))
+			}
 			return Sc{T: v.Len, Sort: "Int"}
 		case MapV:
 			x.fail("len of a map")
